@@ -267,6 +267,23 @@ func runC05(env *lib.Env, rep *lib.Report) {
 					}
 				}
 			}
+			// (5b) an alias that is also the name of another column of the table: ORDER BY <alias> means the output
+			// column of that name
+			for _, l := range [][]qItem{
+				{{kind: "col", col: qRef{"", "a"}, alias: "b"}},
+				{{kind: "col", col: qRef{"", "b"}, alias: "a"}},
+				{{kind: "col", col: qRef{"", "a"}, alias: "b"}, {kind: "col", col: qRef{"", "b"}, alias: "a"}},
+				{{kind: "col", col: qRef{"", "c"}, alias: "d"}, {kind: "col", col: qRef{"", "a"}}},
+				{{kind: "col", col: qRef{"", "d"}, alias: "c"}, {kind: "col", col: qRef{"", "b"}}},
+			} {
+				for _, it := range l {
+					for _, dir := range []string{"", "DESC"} {
+						for _, lo := range [][2]int{{-1, -1}, {1, -1}, {2, 1}} {
+							r.check(qw, &qQuery{items: l, from: from, orderBy: []qSort{{qRef{"", it.outName()}, dir}}, limit: lo[0], offset: lo[1], limitFirst: true}, "alias-named-like-a-column+order", "")
+						}
+					}
+				}
+			}
 			// (5) projected + aliased + ordered by alias / by name + window
 			for _, l := range [][]qItem{
 				{{kind: "col", col: qRef{"", "c"}, alias: "y"}, {kind: "col", col: qRef{"", "a"}}},
